@@ -146,12 +146,20 @@ def enumerate_target(tg, rec, label, max_events=None):
     for i in idxs:
         ev = trace[i]
         tg.reset()
-        fp = sysmon.FailAt(lib.pkg_dir, i, ev[0])
+        # "fails for any reason": the exception class rotates with the event index (a handler written for one class - "section
+        # absent", "not found", "interrupted" - must not take a failure of that class for something else and carry on)
+        exc = FAULT_CLASSES[(i + len(trace)) % len(FAULT_CLASSES)]
+        fp = sysmon.FailAt(lib.pkg_dir, i, ev[0], exc=exc)
         # same open() proxy as in the census run, so that both runs produce the same event sequence (callee entries
         # reached through the built-in open are attributed to its caller)
         with audit.FileWatch(tg.path):
             with fp:
-                o = boundary.call(lib, tg.invoke)
+                try:
+                    o = boundary.call(lib, tg.invoke)
+                except (KeyboardInterrupt, SystemExit, MemoryError) as e:
+                    o = boundary.Outcome()
+                    o.kind, o.exc, o.cls, o.family, o.msg = "raise", e, type(e).__name__, type(e).__name__, str(e)
+        rec.hist("fault_class", exc.__name__)
         site = "%s:%s:%s" % (ev[1], ev[2], ev[3] if ev[0] == "L" else ("call " if ev[0] == "C" else "entry of ") + ev[4])
         phase = "before-open" if i < open_idx else "between-open-and-write"
         rec.case("%s|%s|%s" % (tg.kind, site, phase))
@@ -169,10 +177,19 @@ def enumerate_target(tg, rec, label, max_events=None):
         rec.hist("injection_phase", phase)
         after = tg.content()
         c2 = dict(case, event=i, site=site, phase=phase)
-        if o.accepted:
+        if o.accepted and tg.kind.endswith(":cli") and o.value not in (0, None):
+            # the command-line function reports failure through its return value (a predicate turned the injected error into
+            # "not a valid key" -> ABORTED): a reported failure, so the file must be untouched
+            rec.count("faults_reported_by_exit_status")
+            if after != tg.original:
+                rec.violation("atomicity/%s/file-changed-after-failure/%s" % (tg.kind, phase),
+                              "fault injected at %s (%s): the command reported status %r but the file on disk changed" % (site, phase, o.value), c2)
+        elif o.accepted:
             # fault swallowed: then the call claims success and must have produced the complete document
             rec.count("faults_swallowed")
-            if not tg.expected_check(after):
+            if after == tg.original:
+                rec.count("faults_swallowed_file_untouched")  # nothing written: consistent with all-or-nothing (C17 judges the status)
+            elif not tg.expected_check(after):
                 rec.violation("atomicity/%s/fault-swallowed-and-file-incomplete" % tg.kind,
                               "fault at %s was swallowed, call returned, file is not the complete document" % site, c2)
         elif after != tg.original:
@@ -208,6 +225,14 @@ class Boom(Exception):
     pass
 
 
+class _InjectedKeyError(KeyError):
+    pass
+
+
+FAULT_CLASSES = [sysmon.InjectedFault, KeyError, ValueError, OSError, RuntimeError, TypeError, AttributeError, IndexError, StopIteration,
+                 _InjectedKeyError, UnicodeError, KeyboardInterrupt, MemoryError, ArithmeticError, FileNotFoundError, PermissionError]
+
+
 def primitive_faults(tg, rec, case):
     """faults raised from inside callees (after they have been entered)"""
     lib = tg.lib
@@ -216,7 +241,8 @@ def primitive_faults(tg, rec, case):
     if tg.kind.startswith("repodata"):
         n = max(1, tg.n_artifacts or 1)
         for k in sorted({1, n // 2 + 1, n}):
-            sites.append(("serialize_and_sign#%d" % k, S, "serialize_and_sign", k))
+            for cls in (Boom, KeyError, _InjectedKeyError, LookupError, OSError, ValueError, KeyboardInterrupt):
+                sites.append(("serialize_and_sign#%d[%s]" % (k, cls.__name__), S, "serialize_and_sign", k, cls))
         sites.append(("common.canonserialize(last)", C, "canonserialize", -1))
         sites.append(("signing.load_metadata_from_file", S, "load_metadata_from_file", 1))
         sites.append(("signing.write_metadata_to_file(entry)", S, "write_metadata_to_file", 1))
@@ -228,7 +254,9 @@ def primitive_faults(tg, rec, case):
         sites.append(("root_signing.load_metadata_from_file", R, "load_metadata_from_file", 1))
         sites.append(("root_signing.write_metadata_to_file(entry)", R, "write_metadata_to_file", 1))
         sites.append(("common.dumps", C, "dumps", -1))
-    for name, mod, attr, nth in sites:
+    for site in sites:
+        name, mod, attr, nth = site[:4]
+        forced_cls = site[4] if len(site) > 4 else None
         if mod is None or not hasattr(mod, attr):
             rec.count("primitive_site_missing")
             continue
@@ -254,16 +282,21 @@ def primitive_faults(tg, rec, case):
             target_n = nth
         seen = [0]
 
+        pexc = forced_cls or FAULT_CLASSES[(len(name) + target_n) % len(FAULT_CLASSES)]
+
         def failing(*a, **k):
             seen[0] += 1
             if seen[0] == target_n:
-                raise Boom("injected inside %s" % name)
+                raise pexc("injected inside %s" % name)
             return real(*a, **k)
 
         tg.reset()
         setattr(mod, attr, failing)
         try:
             o = boundary.call(lib, tg.invoke)
+        except (KeyboardInterrupt, SystemExit, MemoryError) as e:
+            o = boundary.Outcome()
+            o.kind, o.exc, o.cls, o.family, o.msg = "raise", e, type(e).__name__, type(e).__name__, str(e)
         finally:
             setattr(mod, attr, real)
         if seen[0] < target_n:
@@ -275,7 +308,11 @@ def primitive_faults(tg, rec, case):
             rec.violation("atomicity/%s/file-changed-after-primitive-failure" % tg.kind,
                           "%s failed, the call raised %s, but the file changed (%d -> %d bytes)" % (name, o.cls, len(tg.original), len(after or b"")),
                           dict(case, site=name))
-        if o.accepted and not tg.expected_check(after):
+        if o.accepted and tg.kind.endswith(":cli") and o.value not in (0, None):
+            if after != tg.original:
+                rec.violation("atomicity/%s/file-changed-after-primitive-failure" % tg.kind,
+                              "%s failed, the command reported status %r, but the file changed" % (name, o.value), dict(case, site=name))
+        elif o.accepted and after != tg.original and not tg.expected_check(after):
             rec.violation("atomicity/%s/fault-swallowed-and-file-incomplete" % tg.kind, "%s failed but the call returned with an incomplete file" % name,
                           dict(case, site=name))
 
